@@ -24,4 +24,10 @@ AdjointSame == FockEval(DagOps(str)) = FockEval(str)
 Anticommute ==
   \A i \in 1..(Len(str) - 1) : str[i].m # str[i + 1].m =>
      FockEval([str EXCEPT ![i] = str[i + 1], ![i + 1] = str[i]]) = 0 - FockEval(str)
+\* NEGATIVE CONTROLS (checks/c18.py expects TLC to report them): operators that commute (an evaluation that forgot the
+\* phase of its sort), and the claim that no string has a negative expectation
+ControlCommute ==
+  \A i \in 1..(Len(str) - 1) : str[i].m # str[i + 1].m =>
+     FockEval([str EXCEPT ![i] = str[i + 1], ![i + 1] = str[i]]) = FockEval(str)
+ControlNeverNegative == BubbleEval(str) >= 0
 =============================================================================
